@@ -1927,30 +1927,191 @@ def _leaves(test):
     return [t]
 
 
-def _offer_parts(p, f: Func, e, depth=0) -> List[Tuple[str, ast.AST]]:
-    """The list handed to the negotiation, flattened into its concatenated parts:
-    ('types', <list/tuple literal or conditional of such>) | ('other', expr)."""
-    if depth > 6:
+def once_bound(f: Func) -> Dict[str, ast.AST]:
+    """Locals of f (not parameters) bound exactly once, by a plain assignment: name -> value expression.  Such a
+    local IS what it was bound to wherever it is read after the binding (reading ability 1)."""
+    cnt: Dict[str, int] = {}
+    val: Dict[str, ast.AST] = {}
+    for x in walk_self(f.node):
+        if isinstance(x, ast.Name) and isinstance(x.ctx, (ast.Store, ast.Del)):
+            cnt[x.id] = cnt.get(x.id, 0) + 1
+        elif isinstance(x, ast.ExceptHandler) and x.name:
+            cnt[x.name] = cnt.get(x.name, 0) + 2
+        elif isinstance(x, (ast.Global, ast.Nonlocal)):
+            for nm in x.names:
+                cnt[nm] = cnt.get(nm, 0) + 2
+        if isinstance(x, ast.Assign) and len(x.targets) == 1 and isinstance(x.targets[0], ast.Name):
+            val[x.targets[0].id] = x.value
+        elif isinstance(x, ast.AnnAssign) and isinstance(x.target, ast.Name) and x.value is not None:
+            val[x.target.id] = x.value
+    params = set(f.params())
+    return {k: v for k, v in val.items() if cnt.get(k) == 1 and k not in params}
+
+
+def fold_in(p, f: Func, e, depth=0):
+    """p.fold of an expression of f, with the locals bound once to a constant expression read as that constant
+    (reading abilities 1 and 3: `sep = ', '` / `types = _TYPES` followed by a use of the local)."""
+    v = p.fold(f.module, e, f.cls, f)
+    if v is not UNKNOWN or depth > 4:
+        return v
+    ob = once_bound(f)
+    used = {x.id for x in ast.walk(e) if isinstance(x, ast.Name) and isinstance(x.ctx, ast.Load) and x.id in ob}
+    if not used:
+        return UNKNOWN
+    import copy as _copy
+
+    class Sub(ast.NodeTransformer):
+        def visit_Name(self, n):
+            if isinstance(n.ctx, ast.Load) and n.id in used:
+                w = fold_in(p, f, ob[n.id], depth + 1)
+                if isinstance(w, (str, bytes, int, float, bool, type(None))):
+                    return ast.copy_location(ast.Constant(value=w), n)
+                if isinstance(w, (tuple, list)) and all(isinstance(i, (str, bytes, int)) for i in w):
+                    return ast.copy_location((ast.Tuple if isinstance(w, tuple) else ast.List)(
+                        elts=[ast.Constant(value=i) for i in w], ctx=ast.Load()), n)
+            return n
+
+    e2 = ast.fix_missing_locations(Sub().visit(_copy.deepcopy(e)))
+    if any(isinstance(x, ast.Name) and x.id in used for x in ast.walk(e2)):
+        return UNKNOWN
+    return p.fold(f.module, e2, f.cls, f)
+
+
+def plain_helper(p, f: Func, call: ast.Call) -> Optional[Func]:
+    """The module-level function / method of the caller's own class a call resolves to, when the call can be read
+    as its body (reading ability 2): no decorator that changes what is called, not a generator, no */** in the call."""
+    t = p.callee(f, call)
+    if not isinstance(t, Func) or t is f:
+        return None
+    if any(d not in ('staticmethod', 'classmethod') for d in t.decorators):
+        return None
+    if any(isinstance(x, (ast.Yield, ast.YieldFrom)) for x in walk_self(t.node)):
+        return None
+    if any(isinstance(a, ast.Starred) for a in call.args) or any(k.arg is None for k in call.keywords):
+        return None
+    if t.parent is not None:
+        return None            # a closure: its free variables belong to another frame
+    return t
+
+
+def bind_args(g: Func, call: ast.Call, bound_self: Optional[bool] = None) -> Optional[Dict[str, ast.AST]]:
+    """parameter name -> argument expression of the caller / default expression of the callee; None when the call
+    does not bind.  `self` / `cls` of a bound method call is left out."""
+    a = g.node.args
+    if a.vararg or a.kwarg:
+        return None
+    pos = [x.arg for x in a.posonlyargs + a.args]
+    if bound_self is None:
+        bound_self = g.cls is not None and 'staticmethod' not in g.decorators and isinstance(call.func, ast.Attribute)
+    if bound_self:
+        pos = pos[1:]
+    if len(call.args) > len(pos):
+        return None
+    out: Dict[str, ast.AST] = dict(zip(pos, call.args))
+    kwonly = [x.arg for x in a.kwonlyargs]
+    for k in call.keywords:
+        if k.arg in out or k.arg not in pos + kwonly:
+            return None
+        out[k.arg] = k.value
+    dpos = pos[len(pos) - len(a.defaults):] if a.defaults else []
+    for nm, d in zip(dpos, a.defaults[len(a.defaults) - len(dpos):] if dpos else []):
+        out.setdefault(nm, d)
+    for x, d in zip(a.kwonlyargs, a.kw_defaults):
+        if d is not None:
+            out.setdefault(x.arg, d)
+    if set(out) != set(pos + kwonly):
+        return None
+    return out
+
+
+def inert_default(p, g: Func, param: str) -> Optional[ast.AST]:
+    """The default expression of `param` when the parameter is an additive, inert extension (reading ability 4): it
+    has a default, is never rebound in g, and no call anywhere in the analysed package of a function / method called
+    g.name passes it (by keyword, by position, or through */**).  For the callers the package has, the parameter IS
+    its default."""
+    a = g.node.args
+    pos = [x.arg for x in a.posonlyargs + a.args]
+    default = None
+    idx = None
+    if param in pos:
+        idx = pos.index(param)
+        k = idx - (len(pos) - len(a.defaults))
+        if k < 0:
+            return None
+        default = a.defaults[k]
+    else:
+        for x, d in zip(a.kwonlyargs, a.kw_defaults):
+            if x.arg == param:
+                default = d
+        if default is None:
+            return None
+    if any(isinstance(x, ast.Name) and x.id == param and isinstance(x.ctx, (ast.Store, ast.Del)) for x in ast.walk(g.node)):
+        return None
+    shift = 1 if (g.cls is not None and 'staticmethod' not in g.decorators) else 0
+    for m in p.modules.values():
+        for c in ast.walk(m.tree):
+            if not isinstance(c, ast.Call):
+                continue
+            fn = c.func
+            nm = fn.attr if isinstance(fn, ast.Attribute) else (fn.id if isinstance(fn, ast.Name) else None)
+            if nm != g.name:
+                continue
+            if any(isinstance(x, ast.Starred) for x in c.args) or any(k.arg is None for k in c.keywords):
+                return None
+            if any(k.arg == param for k in c.keywords):
+                return None
+            if idx is not None:
+                # bound call (attribute): self is not among the arguments; plain name call of a method object: it is
+                n_given = len(c.args) + (shift if isinstance(fn, ast.Attribute) else 0)
+                if n_given > idx:
+                    return None
+    # handed around as an object (functools.partial, a table of callables): the callers are not all visible
+    for m in p.modules.values():
+        for x in ast.walk(m.tree):
+            if isinstance(x, ast.Constant) and x.value == g.name:
+                return None
+    return default
+
+
+def _str_tuple(v) -> Optional[List[str]]:
+    if isinstance(v, (tuple, list)) and v and all(isinstance(x, str) for x in v):
+        return list(v)
+    return None
+
+
+def _offer_parts(p, f: Func, e, depth=0) -> List[Tuple[str, ast.AST, Func, Optional[List[List[str]]]]]:
+    """The list handed to the negotiation, flattened into its concatenated parts, whatever builds it - `+`, starred
+    displays, list()/tuple(), a local bound to any of these, a module-level / same-class helper that returns it, a
+    module-level constant tuple: ('types', expr, function holding expr, alternatives: the constant lists of media
+    types the part can be) | ('other', expr, function, None)."""
+    if depth > 8:
         raise UnknownIdiom('%s: offered media types are built too deeply: %s' % (f.qual, short(e)))
+
+    def as_types(alts_of, expr):
+        """several ways to the same part (conditional / several bindings / several returns): all constant lists"""
+        if alts_of and all(len(a) == 1 and a[0][0] == 'types' for a in alts_of):
+            return [('types', expr, f, [x for a in alts_of for x in a[0][3]])]
+        return None
+
     if isinstance(e, ast.BinOp) and isinstance(e.op, ast.Add):
         return _offer_parts(p, f, e.left, depth + 1) + _offer_parts(p, f, e.right, depth + 1)
     if isinstance(e, ast.Call) and isinstance(e.func, ast.Name) and e.func.id in ('list', 'tuple') and len(e.args) == 1 and not e.keywords:
         return _offer_parts(p, f, e.args[0], depth + 1)
     if isinstance(e, (ast.List, ast.Tuple)) and any(isinstance(x, ast.Starred) for x in e.elts):
-        out: List[Tuple[str, ast.AST]] = []
+        out: List[Tuple[str, ast.AST, Func, Optional[List[List[str]]]]] = []
         for x in e.elts:
             if isinstance(x, ast.Starred):
                 out.extend(_offer_parts(p, f, x.value, depth + 1))
             else:
                 out.extend(_offer_parts(p, f, ast.List(elts=[x], ctx=ast.Load()), depth + 1))
         return out
-    if isinstance(e, (ast.List, ast.Tuple)) and e.elts and all(isinstance(p.fold(f.module, x, None, f), str) for x in e.elts):
-        return [('types', e)]
+    if isinstance(e, (ast.List, ast.Tuple)) and e.elts:
+        vs = [fold_in(p, f, x) for x in e.elts]
+        if all(isinstance(v, str) for v in vs):
+            return [('types', e, f, [vs])]
     if isinstance(e, ast.IfExp):
-        a, b = _offer_parts(p, f, e.body, depth + 1), _offer_parts(p, f, e.orelse, depth + 1)
-        if len(a) == 1 and len(b) == 1 and a[0][0] == b[0][0] == 'types':
-            return [('types', e)]
-        return [('other', e)]
+        got = as_types([_offer_parts(p, f, e.body, depth + 1), _offer_parts(p, f, e.orelse, depth + 1)], e)
+        return got or [('other', e, f, None)]
     if isinstance(e, ast.Name) and e.id not in f.params():
         binds = []
         for n in walk_self(f.node):
@@ -1967,32 +2128,27 @@ def _offer_parts(p, f: Func, e, depth=0) -> List[Tuple[str, ast.AST]]:
             return _offer_parts(p, f, binds[0], depth + 1)
         if len(binds) > 1:
             # `if <option>: types = [...] / else: types = [...]`: a conditional list of types
-            alts = [_offer_parts(p, f, b, depth + 1) for b in binds]
-            if all(len(a) == 1 and a[0][0] == 'types' for a in alts):
-                return [('types', e)]
+            got = as_types([_offer_parts(p, f, b, depth + 1) for b in binds], e)
+            if got:
+                return got
             raise UnknownIdiom('%s: offered media types %s have %d bindings' % (f.qual, e.id, len(binds)))
-    return [('other', e)]
-
-
-def _type_alternatives(p, f: Func, e) -> List[List[str]]:
-    if isinstance(e, ast.IfExp):
-        return _type_alternatives(p, f, e.body) + _type_alternatives(p, f, e.orelse)
-    if isinstance(e, ast.Name):
-        out: List[List[str]] = []
-        for n in walk_self(f.node):
-            if isinstance(n, ast.Assign) and any(is_name(t, e.id) for t in n.targets):
-                out.extend(_type_alternatives(p, f, n.value))
-            elif isinstance(n, ast.AnnAssign) and is_name(n.target, e.id) and n.value is not None:
-                out.extend(_type_alternatives(p, f, n.value))
-        if not out:
-            raise UnknownIdiom('%s: predefined media types %s' % (f.qual, short(e)))
-        return out
-    parts = _offer_parts(p, f, e)
-    if len(parts) == 1 and parts[0][0] == 'types' and not isinstance(parts[0][1], ast.IfExp):
-        return [[p.fold(f.module, x, None, f) for x in parts[0][1].elts]]
-    if len(parts) == 1 and parts[0][0] == 'types':
-        return _type_alternatives(p, f, parts[0][1])
-    raise UnknownIdiom('%s: predefined media types %s' % (f.qual, short(e)))
+    if isinstance(e, (ast.Name, ast.Attribute)):
+        # a module-level / class-level constant sequence of media types is its value
+        vs = _str_tuple(fold_in(p, f, e))
+        if vs is not None:
+            return [('types', e, f, [vs])]
+    if isinstance(e, ast.Call):
+        g = plain_helper(p, f, e)
+        if g is not None and not g.is_async:
+            rets = [r for r in walk_self(g.node) if isinstance(r, ast.Return) and r.value is not None]
+            if len(rets) == 1:
+                return _offer_parts(p, g, rets[0].value, depth + 1)
+            if rets:
+                got = as_types([_offer_parts(p, g, r.value, depth + 1) for r in rets], e)
+                if got:
+                    return got
+                raise UnknownIdiom('%s: offered media types are built by %s, which has %d returns' % (f.qual, g.qual, len(rets)))
+    return [('other', e, f, None)]
 
 
 def _negotiation_rule(run, ser: Func):
@@ -2020,16 +2176,16 @@ def _negotiation_rule(run, ser: Func):
         if len(c.args) != 1 or c.keywords:
             raise UnknownIdiom('%s: negotiation call %s' % (ser.qual, short(c)))
         parts = _offer_parts(p, ser, c.args[0])
-        typed = [i for i, (k, _e) in enumerate(parts) if k == 'types']
+        typed = [i for i, part in enumerate(parts) if part[0] == 'types']
         if not typed:
             raise UnknownIdiom('%s: no literal list of predefined media types in %s' % (ser.qual, short(c.args[0])))
         run.check(typed[0] == 0, 'the default error serializer offers the predefined media types before the registered handlers '
                                  '(an equal match goes to the first one offered)', ser, 'offered: ' + short(c.args[0]), where=ser.loc(c),
                   runtime_witness='Accept: */* (or no Accept header) with a registered handler listed first: the error is no longer JSON')
-        alts = [a for i in typed[:1] for a in _type_alternatives(p, ser, parts[i][1])]
+        alts = [a for i in typed[:1] for a in parts[i][3]]
         bad = [a for a in alts if a[0] != json_type]
         run.check(not bad, 'JSON is the first of the predefined media types the default error serializer offers', ser,
-                  'predefined: ' + short(parts[typed[0]][1]), where=ser.loc(parts[typed[0]][1]),
+                  'predefined: ' + short(parts[typed[0]][1]), where=parts[typed[0]][2].loc(parts[typed[0]][1]),
                   runtime_witness='Accept: application/json, application/xml (equal weight): the error is rendered as %s' % (bad[0][0] if bad else ''))
     # (2) no Accept-text test selects a type without the negotiation
     tx = _AcceptText(p, ser, reqn)
@@ -2861,7 +3017,10 @@ def _vary_through_append(run, ser: Func, call: ast.Call, respn: str):
     W: a middleware set Vary: Accept-Encoding; append_header skips the append because 'Accept' in 'Accept-Encoding' ->
     the negotiated (JSON vs XML) error body goes out without Vary: Accept."""
     p = run.project
-    name, value = (p.fold(ser.module, x, None, ser) for x in call.args)
+    name, value = (fold_in(p, ser, x) for x in call.args)
+    kwargs = {k.arg: fold_in(p, ser, k.value) for k in call.keywords}
+    if any(k is None or v is UNKNOWN for k, v in kwargs.items()):
+        raise UnknownIdiom('%s: keyword arguments of %s' % (ser.qual, short(call)))
     seen: Dict[str, Tuple[Func, str, List[str]]] = {}
     for app, _q, tag in APPS:
         cq = _response_class(p, app)
@@ -2872,16 +3031,19 @@ def _vary_through_append(run, ser: Func, call: ast.Call, respn: str):
     for f, cq, tags in seen.values():
         run.use(f)
         tag = '/'.join(tags)
-        params = f.params()
-        if len(params) != 3:
-            raise UnknownIdiom('%s: signature %s' % (f.qual, params))
+        # the call is evaluated as the serializer makes it: (name, value) bind the first two parameters after self; further
+        # parameters (additive extensions such as a keyword-only separator) take their defaults, exactly as at run time
+        probe = ast.Call(func=ast.Attribute(value=ast.Name(id=respn, ctx=ast.Load()), attr='append_header', ctx=ast.Load()),
+                         args=list(call.args), keywords=list(call.keywords))
+        if bind_args(f, probe, bound_self=True) is None:
+            raise UnknownIdiom('%s: signature %s does not bind %s' % (f.qual, f.params(), short(call)))
         failures = []
         for before in VARY_BEFORE:
             ce = _c9.ConcreteEval(p)
             headers = {} if before is None else {name.lower(): before}
             obj = _c9.CObj(cq, {'_headers': headers, '_extra_headers': None})
             try:
-                ce.call_func(f, [obj, name, value], {})
+                ce.call_func(f, [obj, name, value], dict(kwargs))
             except _c9.CRaise as ex:
                 raise UnknownIdiom('%s: evaluation on (%r, %r) with prior value %r raises %s' % (f.qual, name, value, before, ex.cls))
             after = obj.attrs.get('_headers')
@@ -2937,7 +3099,7 @@ def r4_rendering(run):
     for c in walk_self(ser.node):
         if isinstance(c, ast.Call) and isinstance(c.func, ast.Attribute) and c.func.attr == 'append_header' and is_name(c.func.value, respn) \
                 and len(c.args) == 2:
-            a, b = (p.fold(ser.module, x, None, ser) for x in c.args)
+            a, b = (fold_in(p, ser, x) for x in c.args)
             if isinstance(a, str) and isinstance(b, str) and a.lower() == 'vary' and b.lower() == 'accept':
                 vary.append(c)
     path = _all_paths_through(cfg, _call_nodes(ix, vary))
